@@ -14,3 +14,38 @@ def c04_single_null_element(failure, finding):
     v, r = failure.get("value"), failure.get("reparsed")
     return (v == {"t": "list", "v": [{"t": "enum", "c": "NullableYesOrNoEnum", "m": "Null"}]}
             and r == {"t": "list", "v": []})
+
+
+def _reads_as(text, fn):
+    try:
+        fn(text)
+        return True
+    except (ValueError, TypeError):
+        return False
+
+
+def c02_union_numeric_text(failure, finding):
+    """An API-assigned *str* value of a string-or-number column whose text Python itself reads as a number
+    ('1', '01', '007' in Chromosome / NCBI_Build), or an int in a string-integer-or-float column: the writer accepts
+    it, the reader gives the number back.  Decided from the stored input alone (never from what the library
+    says about it), so a change that breaks other values of these or other columns is still reported."""
+    if failure.get("kind") not in ("values", "records", "rewrite"):
+        return False
+    cls, wv = failure.get("column_class"), failure.get("written_value") or {}
+    if cls == "StringOrIntegerColumn":
+        return wv.get("t") == "str" and _reads_as(wv.get("v"), int)
+    if cls == "StringIntegerOrFloatColumn":
+        return (wv.get("t") == "str" and _reads_as(wv.get("v"), float)) or wv.get("t") == "int"
+    return False
+
+
+def c02_entrez_api_zero(failure, finding):
+    """Entrez_Gene_Id assigned the integer 0 through the API: written as '0', which is the column's null spelling."""
+    if failure.get("kind") not in ("values", "records", "rewrite"):
+        return False
+    return failure.get("column_class") == "EntrezGeneId" and failure.get("written_value") == {"t": "int", "v": "0"}
+
+
+def c02_hash_first_column(failure, finding):
+    """A scheme-less column set whose first column name starts with '#': its column-name line is read as a header line."""
+    return failure.get("first_column_starts_with_hash") is True and failure.get("scheme") is None
